@@ -158,6 +158,8 @@ func (ex *Exec) callMerged(fn *ssa.Function, pi *pureInfo, args []Value) Value {
 			switch x := in.(type) {
 			case *ssa.DebugRef:
 			case *ssa.Phi:
+				// (acyclic function: a phi operand defined in this block cannot exist, so
+				// sequential evaluation equals parallel evaluation here)
 				var v *Term
 				for i, p := range b.Preds {
 					e, ok := edge[[2]*ssa.BasicBlock{p, b}]
